@@ -56,6 +56,8 @@ type X struct {
 	nontriv bool
 	pruned  bool
 	tags    map[string]bool
+	outs    []string
+	sts     [][16]byte
 }
 
 type seenRec struct{ depth, budget int }
@@ -225,7 +227,7 @@ func (x *X) Tag(name string) {
 // Outcome records an observed outcome class; distinct classes are counted.
 func (x *X) Outcome(class string) {
 	if !x.Replaying() {
-		x.e.outcomes[class]++
+		x.outs = append(x.outs, class)
 	}
 }
 
@@ -236,7 +238,7 @@ func (x *X) State(key string) {
 	if x.Replaying() {
 		return
 	}
-	x.e.states[hashKey(key)] = struct{}{}
+	x.sts = append(x.sts, hashKey(key))
 }
 
 // Seen records the canonical state key and reports whether the state was
@@ -248,7 +250,7 @@ func (x *X) Seen(key string, remaining int) bool {
 		return false
 	}
 	h := hashKey(key)
-	x.e.states[h] = struct{}{}
+	x.sts = append(x.sts, h)
 	b := x.DevLeft()
 	recs := x.e.seen[h]
 	for _, r := range recs {
@@ -318,6 +320,12 @@ func (e *explorer) account(x *X) {
 	}
 	for t := range x.tags {
 		e.tagCounts[t]++
+	}
+	for _, o := range x.outs {
+		e.outcomes[o]++
+	}
+	for _, h := range x.sts {
+		e.states[h] = struct{}{}
 	}
 	n := e.owned
 	if n == 1 || n == 2 || n == 10 || n == 100 || n == 1000 || n == 10000 || n == 100000 {
